@@ -129,3 +129,10 @@ package bft
 //@ func (*BFT).ProcessDSE
 //@   callsite Check requires[evidencecommittee] arg1 == resultof(LoadCommittee)
 //@   callsite GetDoubleSigners requires[verifiedcommittee] arg2 == resultof(LoadCommittee)
+
+// ---- C07: abandoning a round abandons whatever the proposal did to the working state --------------------------------
+// A rejected proposal has usually been applied (in part) to the working state machine before the rejection; the
+// validation result is nil then, so "a result is cached" is no sign that the state is clean. Every round interrupt
+// resets the working state machine - unconditionally.
+//@ func (*BFT).RoundInterrupt
+//@   ensures[statereset] fsmResets(b.Controller) == old(fsmResets(b.Controller)) + 1
